@@ -35,7 +35,7 @@ def ncomp(path):
 def run():
     ses = Session("C10")
     rep = ses.rep
-    recs, stats, _ = progs.load()
+    recs, stats, _ = progs.load(routes=True)
     texts = [r["text"] for r in recs]
     pairs = []
     for _ in range(400 if tier() == "quick" else 6000):
@@ -51,6 +51,17 @@ def run():
             # in a combinator every pattern is a branch of one alternation
             member_asts[label] = [([("alt", [asts[x]])] if asts[x] else asts[x]) for x in p]
             targets.append((label, {"any": p, "mode": m}, row))
+    # re-owned globs answer depth() from a rebuilt token tree but match with the retained program:
+    # a depth that changes on the way is checked against that program (no known-finding roles)
+    reowned = set()
+    for r in recs:
+        for route in ("into_owned", "from_str", "clone"):
+            d = (r["row"].get("routes") or {}).get(route)
+            if d and "error" not in d and "smt" in d and d.get("depth") != r["row"]["depth"]:
+                label = "%s (%s)" % (r["text"], route)
+                member_asts[label] = [None]
+                reowned.add(label)
+                targets.append((label, {"glob": r["text"], "route": route}, d))
     tasks = []
     kinds = {}
     for i, (label, spec, row) in enumerate(targets):
@@ -71,6 +82,11 @@ def run():
         if not r["m"] or (lo <= n and (hi is None or n <= hi)):
             raise Inconclusive("witness %r for %r does not reproduce" % (w, targets[i][0]))
         roles = {"depth-outside-reported-bounds"}
+        if targets[i][0] in reowned:
+            rep.candidate(roles | {"depth-changed-by-re-owning"},
+                          {"short": {"program": targets[i][0], "depth": targets[i][2]["depth"],
+                                     "matches": w, "components": n}})
+            continue
         if n < lo:
             roles.add("fewer-components-than-lower-bound")
             if any(R.has_nullable_component(a[0][1][0] if (a and len(a) == 1 and a[0][0] == "alt" and len(a[0][1]) == 1 and targets[i][0].startswith("any(")) else a)
